@@ -19,6 +19,7 @@ type replayCase struct {
 	Inputs   []uint64 `json:"inputs"`
 	Kinds    []string `json:"kinds,omitempty"`
 	Sched    []uint64 `json:"sched,omitempty"`
+	Spawned  bool     `json:"spawned,omitempty"`
 	Tier     int      `json:"tier"`
 	Random   bool     `json:"random,omitempty"`
 	Seed     int64    `json:"seed,omitempty"`
